@@ -5,6 +5,7 @@ package harness
 import (
 	"bytes"
 	"fmt"
+	"io"
 	"os"
 	"path/filepath"
 	"sort"
@@ -621,5 +622,28 @@ func TestC18_R_FilesWhoseSizeIsMisreported(t *testing.T) {
 	}
 	if used == 0 {
 		t.Log("no readable file with a misreported size here")
+	}
+	// a regular file whose content cannot be read (the read fails half way or at once: a failing disk, a network mount
+	// gone away; procfs has files that behave like that): the import fails, it does not store what was read so far
+	for _, p := range []string{"/proc/self/mem", "/proc/self/clear_refs", "/proc/self/attr/exec"} {
+		fi, err := os.Lstat(p)
+		if err != nil || !fi.Mode().IsRegular() {
+			continue
+		}
+		f, err := os.Open(p)
+		if err != nil {
+			continue
+		}
+		_, rerr := io.ReadAll(f)
+		f.Close()
+		if rerr == nil {
+			continue
+		}
+		var l datamodel.Link
+		var ierr error
+		must(t, "import of an unreadable file", func() { l, _, ierr = builder.BuildUnixFSRecursive(p, NewStore().LinkSystem()) })
+		if ierr == nil {
+			t.Fatalf("C18: import of %s, whose content cannot be read (read error: %v), returned the link %v and no error", p, rerr, l)
+		}
 	}
 }
